@@ -177,6 +177,7 @@ def run_case(ctx, mods, case):
     cn, dn, on, t = case['cost'], case['distance'], case['order'], case['t']
     d, c, o = distance(mods, dn), cost(mods, cn), order(mods, on)
     STATE['kstar'] = None
+    STATE['pts_id'], STATE['cache'] = None, {}      # the chain memo is per case (a buffer may be reused across cases)
     ok, res = install.guarded(ctx, 'complete:rdp.grdp', rdp.grdp, pts, t, d, c, o)
     ks = STATE['kstar']
     if ok and ks is not None:
